@@ -7,7 +7,9 @@ MANIFEST = {
     "text": "Coq theorems over an executable model of WithGlobalTx / begin / commitOrRollback / the Commit and Rollback "
             "retry loops over the backoff (C04_decision, C04_decision_complete, C04_retry, C04_result_truthful, "
             "C04_nil_sound_partial/_refuted, C04_surfaces, C04_cancel_surfaces, C04_not_initiator, C04_begin_failed, "
-            "C04_terminates, C04_retry0_diverges_refuted; for all callback outcomes, coordinator scripts, retry settings incl. 0, "
+            "C04_terminates, C04_retry0_diverges_refuted for one call; C04_tree_decision, C04_tree_decision_complete, "
+            "C04_tree_nil_truthful for arbitrary scope trees, by structural induction with the coordinator threaded as state: every xid "
+            "is decided by the call that began it and by nobody else; for all callback outcomes, coordinator scripts, retry settings incl. 0, "
             "cancellation points and entry contexts), with the propagation switch, the role switch and the save/restore "
             "REGENERATED from pkg/tm/transaction_executor.go on every run; the model is tied to the code by driving the real "
             "tm.WithGlobalTx against a scripted coordinator (exhaustive over outcome x begin reply x second-phase script x retry "
@@ -80,12 +82,19 @@ def run_known(chk):
 
 def run(chk, cases_override=None):
     T.model_ready()
-    pr = vlib.proof_step(chk, PROP_FILE, REQUIRES)
-    if cases_override is None:
-        data, secs = vlib.run_harness("tmrun", chk.tmp("c04.json"), timeout=1500, suite="c04", tier=chk.tier, seed=chk.seed)
-        cases = data["cases"]
-    else:
-        cases, secs = cases_override, 0.0
+    import concurrent.futures
+    with concurrent.futures.ThreadPoolExecutor(max_workers=1) as ex:
+        # the real-code run (sleeps in the backoff) overlaps with the proof step
+        fut = None
+        if cases_override is None:
+            vlib.build_harness()
+            fut = ex.submit(vlib.run_harness, "tmrun", chk.tmp("c04.json"), timeout=1500, suite="c04", tier=chk.tier, seed=chk.seed)
+        pr = vlib.proof_step(chk, PROP_FILE, REQUIRES)
+        if fut is not None:
+            data, secs = fut.result()
+            cases = data["cases"]
+        else:
+            cases, secs = cases_override, 0.0
     mism, failing = evaluate(chk, cases, "main")
     if cases_override is None:
         run_known(chk)
@@ -108,7 +117,8 @@ def run(chk, cases_override=None):
                 "then ok/failed/empty or failures for ever) x retry group (commit,rollback counts incl. 0) x cancellation point "
                 "(never, before the call, during business, during the k-th second-phase send); every mode with and without a "
                 "current transaction; arbitrary entry contexts; nested scopes on the same context (every outer x inner mode "
-                "pair x outcomes, three-level chains; per-xid decision clauses); plus a seeded stream of random scripts (1 in 4 hostile). "
+                "pair x outcomes, three-level chains; a fault of every kind at every request position and cancellation at every request index of nested "
+                "runs; random trees under random scripts; per-xid decision clauses); plus a seeded stream of random scripts (1 in 4 hostile). "
                 "non-trivial = at least one commit/rollback reached the coordinator; distinct by case inputs",
         "traces_validated_against_impl": len(cases) - len(mism),
         "oracle_failures": len(failing),
